@@ -419,9 +419,16 @@ where
     A: Subscribe<C>,
     C: Collect,
 {
-    pub(super) fn new(subscriber: A, inner: B, inner_has_subscriber_filter: bool) -> Self {
+    pub(super) fn new(subscriber: A, inner: B, inner_has_subscriber_filter: bool) -> Self
+    where
+        B: 'static,
+    {
+        // Note that this must look at the type of `inner`, not at the collector
+        // type `C`: when two subscribers are combined with `and_then` and then
+        // added to a `Registry`, `C` is the registry, but the inner half of this
+        // `Layered` is a subscriber whose hint and interest must not be ignored.
         #[cfg(all(feature = "registry", feature = "std"))]
-        let inner_is_registry = TypeId::of::<C>() == TypeId::of::<crate::registry::Registry>();
+        let inner_is_registry = TypeId::of::<B>() == TypeId::of::<crate::registry::Registry>();
         #[cfg(not(all(feature = "registry", feature = "std")))]
         let inner_is_registry = false;
 
